@@ -165,6 +165,7 @@ func runCompRace(x *X) {
 		}
 		nmu.Unlock()
 	case "limiter":
+		born := time.Now()
 		rl := ratelimiter.NewTokenBucketRateLimiter(1+c.Intn(4, "max"), time.Duration(1+c.Intn(50, "refill-ms"))*time.Millisecond)
 		clients := []string{"10.0.0.1", "10.0.0.2", "2001:db8::1", "10.0.0.3"}
 		for g := 0; g < nG; g++ {
@@ -172,6 +173,13 @@ func runCompRace(x *X) {
 				switch {
 				case op < 12:
 					rl.Allow(clients[(g+op)%len(clients)])
+				case op < 13 && (g+i)%2 == 0:
+					// wake up at the very instant of the limiter's next cleanup tick (virtual time only moves
+					// when everybody is asleep, so a sweep otherwise always runs alone) and come straight
+					// back as a client the sweep is looking at
+					const tick = 10 * time.Minute
+					time.Sleep(tick - time.Since(born)%tick)
+					rl.Allow(clients[g%len(clients)])
 				case op < 13:
 					time.Sleep(time.Duration(op) * 7 * time.Minute) // across cleanup ticks and bucket expiry
 				case op < 14:
